@@ -6,3 +6,11 @@ PROPS["C18"]["level_text"] += (" Runtime observation (not a proof): a sample of 
                                "reachable must be among the model's occupied slots and within the specification's buffer - this is what sees "
                                "references kept outside the ring slots (hidden slice tails, scratch slices).")
 PROPS["C18"]["rule"] += "; finalizer families: every 25th finite / 150th valid history (6th / 25th in the thorough tier)"
+
+# round 7: explicit IDs that look like generated ones
+for _p in ("C08", "C09"):
+    PROPS[_p]["rule"] += ("; explicit (manual) IDs are spelled nine ways - opaque names, or decimals that look like generated IDs: counting from 0 / "
+                          "from an offset, decreasing, out of order within blocks, shuffled, with gaps, zero-padded, mixed with names - in the "
+                          "random histories and in the exhaustive ones below the maximal length; replays also present never-issued numerals "
+                          "inside the range of the issued ones and right after it; directed sweep: every arrangement of 2-4 distinct numbers "
+                          "out of six put with explicit IDs, then every number of the range presented")
